@@ -96,7 +96,7 @@ class Unit:
 
     # ---------------------------------------------------------------- item emission
     def emit(self, rel, spec, rules=(), key_prefix='', only=None, skip=(), derive_drop=(), pub_fields=False,
-             pre=None, widen=True):
+             pre=None, widen=True, derive_add=(), key_tag=''):
         """emit the item addressed by `spec` from file `rel`.  For impl/trait items every fn child is
         processed separately (rules + contract splice).  `only`/`skip`: restrict fn children by name.
         `pre`: optional function(text)->text applied to the whole item before anything else (for
@@ -104,7 +104,11 @@ class Unit:
         src = self.source(rel)
         it = src.find(spec)
         self.item_log.append('%s :: %s (lines %d-%d)' % (rel, spec, it.lines[0], it.lines[1]))
-        text = self._emit_item(src, it, rel, rules, key_prefix, only, skip)
+        text = self._emit_item(src, it, rel, rules, key_prefix, only, skip, key_tag)
+        if derive_add:
+            # derives that a dropped third-party derive (e.g. enumset's EnumSetType) used to provide
+            text = re.sub(r'(?m)^((?:pub )?(?:struct|enum) )', '#[derive(%s)]\n\\1' % ', '.join(derive_add), text, count=1)
+            self.dropped['derive-readded:' + '+'.join(derive_add)] += 1
         for d in derive_drop:
             text = re.sub(r'(#\[derive\([^\]]*?)\b%s\b,?\s*' % d, r'\1', text)
             self.dropped['derive-replaced-by-trusted-spec:' + d] += 1
@@ -133,13 +137,13 @@ class Unit:
             return m.group(1) + 'pub ' + m.group(2)
         return re.sub(r'(?m)^(\t)((?!pub\b)[a-z_][A-Za-z0-9_]*\s*:)', f, text)
 
-    def _emit_item(self, src, it, rel, rules, key_prefix, only, skip):
+    def _emit_item(self, src, it, rel, rules, key_prefix, only, skip, key_tag=''):
         if it.kind == 'fn':
             return self._emit_fn(src, it, rel, key_prefix + 'fn ' + it.name, rules)
         if it.kind in ('impl', 'trait') and it.children:
             parts = []
             pos = it.start
-            hdr = it.header if it.kind == 'impl' else 'trait ' + it.name
+            hdr = (it.header if it.kind == 'impl' else 'trait ' + it.name) + key_tag
             for ch in it.children:
                 parts.append(self.clean(src.text[pos:ch.start]))
                 if ch.kind == 'fn' and ch.body_open is not None:
@@ -289,7 +293,7 @@ class Unit:
                 blines[i + 1:i + 1] = ins
             body = '\n'.join(blines)
         prefix = list(c.body_prefix)
-        if self.sentinel and any(sec == 'requires' for sec, _ in c.clauses):
+        if self.sentinel and any(sec == 'requires' for sec, _ in c.clauses) and not any('external_body' in a for a in c.attrs):
             self.sentinels.append(key)
             prefix.append('\tassert(false); /*@S:%s*/' % key)
         if prefix:
